@@ -929,4 +929,98 @@ Proof.
         [discriminate|set_solver|exact Hk0| |exact Hlin].
       intros Hin. apply (Hfreshc kc1); [cbn; rewrite Er, Hn1; set_solver|]. simpl. apply in_app_iff. by right.
 Qed.
+
+(* ------------------------------------------------------------------ calls *)
+Definition funs_aff (Fs : list fundef) : Prop := Forall (fun fd => affr None (fn_body fd)) Fs.
+
+Lemma sub_all_affr Δ rs s : forall args ps, args_ok teq Δ ∅ None args ps ->
+  forall b, Forall binder ps -> Forall (fun p => ident p ∉ rs) ps ->
+  typed D F teq Δ (params_ctx ps) None rs s b ->
+  NoDup (flat_map name_chans args) ->
+  (forall k, In k (form_chans b) -> ~ In k (flat_map name_chans args)) ->
+  affr None b ->
+  affr None (sub_all ps args b) /\
+  (forall k, In k (form_chans (sub_all ps args b)) -> In k (form_chans b) \/ In k (flat_map name_chans args)).
+Proof.
+  intros args ps Ha. induction Ha as [|a p args ps [t [Hnt Hc]] Ha IH]; intros b Hb Hrs Hty Hnd Hfr Haf; simpl.
+  - split; [exact Haf|]. intros k Hk. by left.
+  - inversion Hb as [|? ? Hb1 Hb2]; subst. inversion Hrs as [|? ? Hrs1 Hrs2]; subst.
+    destruct (client_closed teq Δ a t Hc) as [_ (ka & ta & Hka & _)].
+    assert (Hna : name_chans a = [ka]) by (unfold name_chans; by rewrite Hka).
+    simpl in Hnd, Hfr. rewrite Hna in Hnd, Hfr. simpl in Hnd. inversion Hnd as [|? ? Hni Hnd']; subst.
+    rewrite (params_ctx_cons _ _ _ Hnt) in Hty.
+    assert (Hty' : typed D F teq Δ (params_ctx ps) None rs s (subst p a b)).
+    { apply (typed_subst D F teq Hteq Δ (params_ctx ps) None rs s b p a t (proj1 Hb1));
+        [eapply chan_ty_is_chan; [exact Hteq|exact Hc|apply (teq_refl D teq Hteq)]|discriminate|exact Hrs1|exact Hty]. }
+    assert (Haf' : affr None (subst p a b)).
+    { apply (affr_subst D F teq Hteq Δ (params_ctx ps) None rs s b p a ka t (proj1 Hb1) Hka); try done.
+      intros Hin. apply (Hfr ka Hin). by left. }
+    destruct (IH (subst p a b) Hb2 Hrs2 Hty' Hnd') as [H1 H2]; [|exact Haf'|].
+    + intros k Hk Hin. apply form_chans_subst in Hk as [Hk|Hk].
+      * apply (Hfr k Hk). by right.
+      * rewrite Hna in Hk. destruct Hk as [<-|[]]. done.
+    + split; [exact H1|]. intros k Hk. rewrite Hna. destruct (H2 k Hk) as [H|H]; [|right; by right].
+      apply form_chans_subst in H as [H|H]; [by left|]. rewrite Hna in H. destruct H as [<-|[]]. right. by left.
+Qed.
+
+Lemma kcs_flat_uname args : kcs (flat_map (uname None) args) = flat_map name_chans args.
+Proof. induction args as [|a r IH]; simpl; auto. by rewrite kcs_app, kcs_uname, IH. Qed.
+
+Lemma call_affr Δ rs s fn args pt b :
+  typed D F teq Δ ∅ None rs s (FCall fn args pt) -> funs_aff F -> affr None (FCall fn args pt) ->
+  call_body F fn args = Some b ->
+  affr None b /\ (forall k, In k (form_chans b) -> In k (form_chans (FCall fn args pt))).
+Proof.
+  intros H HFa Haf Hcb.
+  inversion H as [| | | | | | | | | | | | |Γ sh rs0 s0 fn0 args0 pt0 fd tf Hg Hft Ht Hargs| | | | | |]; subst.
+  pose proof (get_function_In _ _ _ _ Hg) as Hin.
+  pose proof HF as HF'. unfold funs_typed in HF'. rewrite Forall_forall in HF'. specialize (HF' fd Hin).
+  unfold funs_aff in HFa. rewrite Forall_forall in HFa. specialize (HFa fd Hin).
+  destruct HF' as [tf' [Hft' [Hb [Hnd [Hnt Hbody]]]]]. rewrite Hft in Hft'. injection Hft' as <-.
+  rewrite call_body_unfold, Hg in Hcb. cbn zeta in Hcb.
+  assert (Hbne : Forall (fun p => ident p ∉ ({[ "" ]} : gset string)) (fn_params fd)).
+  { eapply Forall_impl; [|exact Hb]. intros p [_ Hp]. set_solver. }
+  assert (Hw : forall Γ rs1 t b0, RtTyping.typed D F teq ∅ Γ None rs1 t b0 -> typed D F teq Δ Γ None rs1 t b0).
+  { intros. eapply typed_weaken; [apply map_empty_subseteq|eauto]. }
+  assert (Hnoch : forall Γ rs1 t b0, RtTyping.typed D F teq ∅ Γ None rs1 t b0 -> forall k, ~ In k (form_chans b0)).
+  { intros Γ rs1 t b0 Hb0 k Hk. destruct (form_chans_typed D F teq ∅ Γ None rs1 t b0 k Hb0 Hk) as [v Hv].
+    rewrite lookup_empty in Hv. discriminate. }
+  assert (Hndargs : NoDup (flat_map name_chans args)).
+  { apply affr_aff in Haf. unfold aff in Haf. simpl in Haf. apply Forall_inv in Haf. apply NoDup_kcs in Haf.
+    by rewrite kcs_flat_uname in Haf. }
+  simpl form_chans.
+  destruct Hargs as [[Hl Ha]|[a0 [rest [-> [Hl [Hp Ha]]]]]].
+  - rewrite Hl, Nat.eqb_refl in Hcb.
+    assert (E : b = sub_all (fn_params fd) args (fn_body fd)) by (destruct (fn_explicit fd); congruence). subst b.
+    destruct (fn_explicit fd) as [ep|].
+    + destruct Hbody as [Hep1 [Hep2 Hbody]].
+      destruct (sub_all_affr Δ {[ ""; ident ep ]} tf args (fn_params fd) Ha (fn_body fd) Hb (params_not_rs _ _ Hb Hep2) (Hw _ _ _ _ Hbody) Hndargs) as [H1 H2];
+        [intros k Hk; by destruct (Hnoch _ _ _ _ Hbody k)|exact HFa|].
+      split; [exact H1|]. intros k Hk. destruct (H2 k Hk) as [H0|H0]; [by destruct (Hnoch _ _ _ _ Hbody k)|exact H0].
+    + destruct (sub_all_affr Δ {[ "" ]} tf args (fn_params fd) Ha (fn_body fd) Hb Hbne (Hw _ _ _ _ Hbody) Hndargs) as [H1 H2];
+        [intros k Hk; by destruct (Hnoch _ _ _ _ Hbody k)|exact HFa|].
+      split; [exact H1|]. intros k Hk. destruct (H2 k Hk) as [H0|H0]; [by destruct (Hnoch _ _ _ _ Hbody k)|exact H0].
+  - simpl length in Hcb. rewrite Hl in Hcb.
+    assert (E1 : (S (length (fn_params fd)) =? length (fn_params fd))%nat = false) by (apply Nat.eqb_neq; lia).
+    rewrite E1, Nat.eqb_refl in Hcb.
+    assert (Hna0 : name_chans a0 = []) by (unfold name_chans; destruct Hp as [-> _]; done).
+    simpl in Hndargs |- *. rewrite Hna0 in Hndargs |- *. simpl in Hndargs |- *.
+    apply prov_closed in Hp. destruct Hp as [Hp1 Hp2]. rewrite Hp1 in Hcb.
+    destruct (fn_explicit fd) as [ep|].
+    + destruct Hbody as [Hep1 [Hep2 Hbody]]. injection Hcb as <-.
+      assert (Hfr : params_ctx (fn_params fd) !! ident ep = None) by (apply params_ctx_None; auto).
+      destruct (pnames_subst_explicit D F teq Hteq Δ _ _ _ _ ep Hep1 Hfr (Hw _ _ _ _ Hbody)) as [_ Haf'].
+      assert (Hty' : typed D F teq Δ (params_ctx (fn_params fd)) None ({[ ""; ident ep ]} ∪ {[ "" ]}) tf (subst ep (new_self "") (fn_body fd))).
+      { eapply typed_subst_explicit; eauto. }
+      assert (Hno' : forall k, ~ In k (form_chans (subst ep (new_self "") (fn_body fd)))).
+      { intros k Hk. apply form_chans_subst in Hk as [Hk|Hk]; [by destruct (Hnoch _ _ _ _ Hbody k)|destruct Hk]. }
+      destruct (sub_all_affr Δ ({[ ""; ident ep ]} ∪ {[ "" ]}) tf rest (fn_params fd) Ha _ Hb
+                  ltac:(eapply Forall_impl; [|apply (params_not_rs _ _ Hb Hep2)]; intros p0 Hp0; simpl in Hp0; set_solver)
+                  Hty' Hndargs) as [H1 H2]; [intros k Hk; by destruct (Hno' k)|by apply Haf'|].
+      split; [exact H1|]. intros k Hk. destruct (H2 k Hk) as [H0|H0]; [by destruct (Hno' k)|exact H0].
+    + injection Hcb as <-. simpl.
+      destruct (sub_all_affr Δ {[ "" ]} tf rest (fn_params fd) Ha (fn_body fd) Hb Hbne (Hw _ _ _ _ Hbody) Hndargs) as [H1 H2];
+        [intros k Hk; by destruct (Hnoch _ _ _ _ Hbody k)|exact HFa|].
+      split; [exact H1|]. intros k Hk. destruct (H2 k Hk) as [H0|H0]; [by destruct (Hnoch _ _ _ _ Hbody k)|exact H0].
+Qed.
 End Step.
